@@ -1127,3 +1127,91 @@ pub fn check_c06_chunk(case: &C06Chunk) -> CaseResult {
     }
     Ok(ok)
 }
+
+
+// ---------------------------------------------------------------------------------------------
+// C20 over the chunked streams of C05 / C06: every partition at the highest decode level gives
+// what it gives at the lowest (server: reply bytes, handler calls, end; client: results, instants)
+
+pub fn check_c20_chunks_srv(case: &C05Srv) -> CaseResult {
+    let mut ok = CaseOk::new();
+    let fr = case.base.cfg.framing;
+    let mut stream = Vec::new();
+    for f in &case.base.frames {
+        stream.extend_from_slice(&frame_bytes(fr, f));
+    }
+    if let Some((h, extra)) = &case.bad {
+        stream.extend_from_slice(&mbap_header_raw(h.tx, h.proto, h.len, h.unit));
+        for f in extra {
+            stream.extend_from_slice(&frame_bytes(fr, f));
+        }
+    }
+    for p in case.partitions.iter().take(3) {
+        let mut steps: Vec<Step> = Vec::new();
+        for b in p.apply(&stream) {
+            steps.push(Step::Bytes(b));
+            steps.push(Step::Pause);
+        }
+        steps.push(Step::Eof);
+        let mut obs = Vec::new();
+        for level in [Decode::NOTHING, Decode::MAX] {
+            let mut cfg = case.base.cfg.clone();
+            cfg.decode = level;
+            let run = run_server(
+                &cfg,
+                &steps,
+                &SrvOptions {
+                    select_seed: case.base.select_seed,
+                    ..Default::default()
+                },
+            );
+            obs.push((run.writes.clone(), run.calls.clone(), format!("{:?}", run.end), run.final_units.clone()));
+        }
+        if obs[0] != obs[1] {
+            return Err(format!(
+                "partition {} of a {}-byte stream: the server session at the highest decode level differs from the lowest ({} vs {} writes, {} vs {} handler calls, end {} vs {})",
+                short_partition(p),
+                stream.len(),
+                obs[1].0.len(),
+                obs[0].0.len(),
+                obs[1].1.len(),
+                obs[0].1.len(),
+                obs[1].2,
+                obs[0].2
+            ));
+        }
+    }
+    ok.label("server_chunks");
+    ok.nontrivial = case.base.frames.len() >= 3;
+    Ok(ok)
+}
+
+pub fn check_c20_chunks_cli(case: &ChunkCli) -> CaseResult {
+    let mut ok = CaseOk::new();
+    for p in case.partitions.iter().take(3) {
+        let mut obs = Vec::new();
+        for level in [Decode::NOTHING, Decode::MAX] {
+            let mut c = case.clone();
+            c.decode = level;
+            let run = run_chunk_cli(&c, Some(p));
+            let mut comps: Vec<_> = run.ledger.completions.iter().map(|c| (c.id, c.at, c.res.clone())).collect();
+            comps.sort_by_key(|x| x.0);
+            let writes: Vec<_> = run.peers.iter().flat_map(|p| p.writes.iter().cloned()).collect();
+            obs.push((comps, writes));
+        }
+        if obs[0] != obs[1] {
+            return Err(format!(
+                "partition {}: the client at the highest decode level differs from the lowest ({:?} vs {:?})",
+                short_partition(p),
+                obs[1].0.iter().map(|c| c.2.class()).collect::<Vec<_>>(),
+                obs[0].0.iter().map(|c| c.2.class()).collect::<Vec<_>>()
+            ));
+        }
+    }
+    ok.label(match case.framing {
+        Fr::Mbap => "framing:mbap",
+        Fr::Rtu => "framing:rtu",
+    });
+    ok.nontrivial = case.requests.len() >= 2;
+    Ok(ok)
+}
